@@ -5,7 +5,7 @@ from checks import esccommon
 
 META = dict(
     functions=['opml.c: mmd_print_source_opml', 'itmz.c: mmd_print_source_itmz', 'xml.c: print_xml_as_text (importer unescape)', 'xml.c: xml_extract_attribute / xml_extract_named_attribute / xml_scan_* (Engine B)', 'opml.c: mmd_export_header_opml / mmd_outline_add_opml span arithmetic'],
-    stubs=['d_string.c -> ds_model (C19)', 'c14_outline: mmd_print_source_opml -> recorder of (start,len); DString -> counter of literal pieces', 'libc block/string functions in xml.c -> byte-loop models'],
+    stubs=['d_string.c -> ds_model (C19)', 'c14_outline(_itmz): mmd_print_source_opml / _itmz -> recorder of (start,len); DString -> counter of literal pieces; uuid_new -> constant', 'libc block/string functions in xml.c -> byte-loop models'],
     assumptions=[],
     outside=['heading-tree <-> outline nesting through the lemon OPML parser', 'metadata items', 'the render-identically round trip (whole pipeline)'],
 )
@@ -19,6 +19,11 @@ def harnesses(tier):
         hs.append(h)
     hs.append(dict(name='c14_outline', src='c14/outline.c', pool_off=True,
                    units=[dict(src='repo:opml.c', remove=['mmd_print_source_opml']), 'repo:token.c', 'repo:stack.c', 'repo:object_pool.c', 'repo:char.c'],
+                   unwind=6, timeout=900, mem_gb=6, functional=True, replay=False,
+                   bounds='previous heading(s) and new heading of any of the 8 heading kinds, any base header level 1..6, arbitrary spans (lengths/gaps 0..4), item open or closed, heading or end of document',
+                   desc='mmd_outline_add_opml: note = exact source span between headings; items closed by relative level only (base header level cancels)'))
+    hs.append(dict(name='c14_outline_itmz', src='c14/outline.c', defs=dict(FN='mmd_outline_add_itmz', SRCFN='mmd_print_source_itmz', OPENCH="'t'"), pool_off=True,
+                   units=[dict(src='repo:itmz.c', remove=['mmd_print_source_itmz']), 'repo:token.c', 'repo:stack.c', 'repo:object_pool.c', 'repo:char.c'],
                    unwind=6, timeout=900, mem_gb=6, functional=True, replay=False,
                    bounds='previous heading(s) and new heading of any of the 8 heading kinds, any base header level 1..6, arbitrary spans (lengths/gaps 0..4), item open or closed, heading or end of document',
                    desc='mmd_outline_add_opml: note = exact source span between headings; items closed by relative level only (base header level cancels)'))
